@@ -148,6 +148,8 @@ def main(tier, seed):
                                         extra_profile=(dict(traits=True, trait_prob=0.3) if (b == "kotlin" and i % 2 == 0) else None))
         if i % 3 == 2:
             native_named_types(prog, random.Random("c07n/%s/%s/%s" % (seed, i, b)), tooltier.profiles.support(b))
+        if i % 4 == 1:
+            tooltier.underscore_fields(prog, random.Random("c07u/%s/%s/%s" % (seed, i, b)))
         if i % 3 != 2:
             # special-method attributes (accessors incl. setters that report success, constructors, operators, iterators ..) change how a
             # method is *presented*, never the C ABI of the function behind it (seed C07-g)
